@@ -222,6 +222,13 @@ def handle (st : DState) : String → P (DState × String)
   | "dumb" => do
     let evs ← pList pDumbEv
     pure (st, encList (fun e => encCps (dumbStep M e)) evs)
+  | "mkout" => do
+    let pOB : P (Option Bool) := do
+      let t ← tok
+      if t == "N" then pure none else if t == "1" then pure (some true) else if t == "0" then pure (some false) else failure
+    let a ← pOB; let so ← pOB; let se ← pOB; let p ← pBool; let d ← pBool
+    pure (st, match createOutput { arg := a, sysOut := so, sysErr := se, preferTty := p, termDumb := d } with
+      | .dummy => "DummyOutput" | .plain => "PlainTextOutput" | .vt100 => "Vt100_Output")
   | "printplain" => do
     let c ← pOptNat; let frs ← pList pFrag
     let t := printPlain frs
